@@ -7,6 +7,9 @@
 package main
 
 import (
+	"os"
+	"strconv"
+
 	"verif/harness/internal/gallina"
 )
 
@@ -18,6 +21,13 @@ func main() {
 		Preamble: "From Coq Require Import List ZArith.\nFrom Verif Require Import model.RemoteQueue corr.CorrC40.\nImport ListNotations.\nOpen Scope Z_scope.\n",
 		Footer:   gallina.StdFooter}
 	id := 0
+	if v := os.Getenv("VERIF_C40_ONLY"); v != "" { // debugging aid: one concurrent run, logging to stderr
+		idx, _ := strconv.Atoi(v)
+		runConc(0, f.Seed, idx, f.Out, cf, meta)
+		cf.Flush()
+		meta.Write(f.Out)
+		return
+	}
 	for i := range fixedScripts {
 		runScript(id, f.Seed, -1-i, &fixedScripts[i], cf, meta)
 		id++
